@@ -40,10 +40,10 @@ QUERIES = {
 }
 
 
-def deep_doc(n):
+def deep_doc(n, name="a"):
     d = {"a": 1}
     for _ in range(n):
-        d = {"a": [d]}
+        d = {name: [d]}
     return d
 
 
@@ -53,11 +53,15 @@ DOCS = {
               b"[]", b"{}", b"0", b"false", b"null", b'""', b"0.0", b"[0]", b'"ab"', b"true", b" [ ] ",
               # grammatical JSON numbers beyond the range of a double (the decoder makes them infinities), huge integers
               b'{"a": 1e400, "k": [{"a": -1e999}, {"a": 2e308, "b": "xb"}], "s": 1E+400}', b"[1e400, -1E+999]",
-              b'{"a": 123456789012345678901234567890, "k": [{"a": 1e-400}]}'],
+              b'{"a": 123456789012345678901234567890, "k": [{"a": 1e-400}]}',
+              # a repeated member name (the decoder keeps the last one: whatever find() sees is what must be printed)
+              b'{"a": 1, "b": 2, "a": 3, "k": [{"a": 1, "a": 2, "b": "xb"}, {"a": "ab"}]}'],
     "nonascii": [{"k": [{"a": "é"}, {"a": "😀b"}, {"a": 7}], "a": "ü ", "ñ": {"a": "b"}},
                  # valid JSON may carry an unpaired surrogate escape
                  b'{"k": [{"a": "x\\ud83dy"}, {"a": "\\u00e9"}], "a": "\\udc00b"}'],
-    "deep": [deep_doc(60)],      # container nesting 122 > default max_recursion_depth 100
+    # container nesting 122 > default max_recursion_depth 100; member names with line breaks on the over-deep branch (a diagnostic
+    # that says WHERE the limit was hit must still be one line)
+    "deep": [deep_doc(60), deep_doc(60, "a\nb"), {"a": 1, "z": deep_doc(60, "x\r\ny")}],
     "badjson": [b'{"k": [1, 2', b"nope", b"", b'{"a": "x\ty"}', b'["a\nb"]', b'{"k\x00": 1}', b'{"a": "\x1f"}', b"[1,]", b"{'a': 1}", b"[NaN]" if False else b"[1 2]"],
     "badutf8": [b'{"a": "\xff\xfe"}', b'["\xc3\x28"]'],
 }
@@ -93,12 +97,28 @@ def run_inprocess(jp, argv, stdin_bytes):
     return status, out.getvalue(), err.getvalue(), tb
 
 
-def run_subprocess(argv, stdin_bytes, ioenc="utf-8"):
+def run_subprocess(argv, stdin_bytes, ioenc="utf-8", delay=0.0):
+    """delay > 0: the document arrives on the pipe only after the tool has started and is waiting for it (a slow producer)."""
     env = dict(os.environ, PYTHONPATH=core.REPO, PYTHONDONTWRITEBYTECODE="1", PYTHONIOENCODING=ioenc)
-    p = subprocess.run(["/venv/bin/python", "-m", "jsonpath_rfc9535"] + argv, input=stdin_bytes, capture_output=True, env=env,
-                       timeout=60, cwd=core.REPO)
-    err = p.stderr.decode("utf-8", "replace")
-    return p.returncode, p.stdout.decode("utf-8", "surrogatepass" if ioenc == "utf-8" else "replace"), err, "Traceback (most recent call last)" in err
+    cmd = ["/venv/bin/python", "-m", "jsonpath_rfc9535"] + argv
+    if delay <= 0:
+        p = subprocess.run(cmd, input=stdin_bytes, capture_output=True, env=env, timeout=60, cwd=core.REPO)
+        rc, so, se = p.returncode, p.stdout, p.stderr
+    else:
+        import time  # noqa: PLC0415
+        pp = subprocess.Popen(cmd, stdin=subprocess.PIPE, stdout=subprocess.PIPE, stderr=subprocess.PIPE, env=env, cwd=core.REPO)
+        time.sleep(delay)
+        try:
+            half = len(stdin_bytes) // 2
+            pp.stdin.write(stdin_bytes[:half])
+            pp.stdin.flush()
+            time.sleep(delay / 2)
+            so, se = pp.communicate(stdin_bytes[half:], timeout=60)
+        except (BrokenPipeError, OSError):
+            so, se = pp.communicate(timeout=60)
+        rc = pp.returncode
+    err = se.decode("utf-8", "replace")
+    return rc, so.decode("utf-8", "surrogatepass" if ioenc == "utf-8" else "replace"), err, "Traceback (most recent call last)" in err
 
 
 def _env_snapshot(jp):
@@ -119,6 +139,7 @@ def run(chk: core.Check, tier: str, seed: int) -> None:
     tmp = tempfile.mkdtemp(prefix="verif-cli-", dir=core.scratch())
     before_env = _env_snapshot(jp)
     n_sub = 0
+    n_slow = 0
     for k, g in enumerate(gens):
         c = g["cfg"]
         q = rng.choice(QUERIES[c["q"]])
@@ -166,7 +187,9 @@ def run(chk: core.Check, tier: str, seed: int) -> None:
         use_sub = tier != "quick" or rng.random() < 0.08 or (c["d"] == "nonascii" and (isinstance(doc, bytes) or rng.random() < 0.5))
         if use_sub:
             n_sub += 1
-            status, out, err, tb = run_subprocess(argv, stdin_bytes, "ascii" if (c["d"] == "nonascii" and c["dsrc"] == "file" and k % 2) else "utf-8")
+            status, out, err, tb = run_subprocess(argv, stdin_bytes, "ascii" if (c["d"] == "nonascii" and c["dsrc"] == "file" and k % 2) else "utf-8",
+                                                  delay=(0.6 if c["dsrc"] == "stdin" and n_sub % 4 == 1 and n_slow < (6 if tier == "quick" else 60) else 0.0))
+            n_slow += 1 if c["dsrc"] == "stdin" and n_sub % 4 == 1 else 0
         else:
             status, out, err, tb = run_inprocess(jp, argv, stdin_bytes)
         written = out
@@ -233,6 +256,28 @@ def run(chk: core.Check, tier: str, seed: int) -> None:
                               {"config": plain["cfg"], "query": q, "document": raw.decode("utf-8", "replace"), "argv": ["-q", q],
                                "model": {k2: plain[k2] for k2 in ("out", "err", "status")},
                                "observed": {"status": status, "stdout": out[:300], "stderr": err[-600:], "traceback": tb}, "problems": problems})
+    # a slow producer on standard input: the document arrives (in two pieces) only after the tool has started waiting for it
+    for q, doc in (("$.a", DOCS["ascii"][0]), ("$[*]", DOCS["ascii"][1]), ("$", b"[]"), ("$.k[*].a", DOCS["ascii"][0])):
+        raw = doc_bytes("ascii", doc, rng)
+        for extra in ([], ["--pretty"]):
+            status, out, err, tb = run_subprocess(extra + ["-q", q], raw, delay=0.5)
+            chk.evaluations += 1
+            n_slow += 1
+            problems = []
+            if status != 0 or tb or err.strip():
+                problems.append(f"exit status {status} / stderr not empty")
+            else:
+                try:
+                    if not core.kind_strict_equal(json.loads(out), expected_values(jp, q, raw)):
+                        problems.append("output is not find(q, doc).values()")
+                except Exception as e:  # noqa: BLE001
+                    problems.append(f"output does not decode as JSON: {type(e).__name__}")
+            if problems:
+                chk.violation({"clause": problems[0][:60], "qclass": "valid", "dclass": "ascii", "debug": False, "stdin": "slow producer"},
+                              {"config": plain["cfg"], "query": q, "document": raw.decode("utf-8", "replace"), "argv": extra + ["-q", q],
+                               "model": {k2: plain[k2] for k2 in ("out", "err", "status")}, "stdin": "written 0.5 s after start, in two pieces",
+                               "observed": {"status": status, "stdout": out[:300], "stderr": err[-600:], "traceback": tb}, "problems": problems})
+    chk.notes["slow_stdin_runs"] = n_slow
     # the front end keeps to itself: the module-level default environment is configured as before
     after = _env_snapshot(jp)
     if after != before_env:
